@@ -240,7 +240,7 @@ def read_plain(ctx):
         r = versionless(interp(facts, body).ret)
         ctx.check(r == ('param', 2), short + '::write', body, 'the op is the value', '%s::write returns %s, expected the given value' % (short, fmt(r, 4)))
     body = ctx.inherent(GSET, 'read')
-    r = versionless(interp(facts, body).ret)
+    r = versionless(general_ret(facts, body, {'value': (1, ('value',))}) or interp(facts, body).ret)     # `if empty { fresh empty set }`
     ok = r == ('field', ('param', 1), 'value')
     if not ok:
         # a copy built element by element (collect, or a loop filling a fresh set): every element of value, none dropped or transformed
